@@ -373,6 +373,11 @@ fn mode_builder(args: &Args) {
         } else {
             hist::gen_hostile_history(&mut rng)
         };
+        // the full observation after every request is quadratic in the length of the history:
+        // the very long layout histories are left to the layout monitors
+        if h.closes() > 24 {
+            continue;
+        }
         evaluations += 1;
         let v = run_one(&h, &mut stats, &mut distinct, &mut samples);
         keep_violations(&mut violations, &mut total, v);
